@@ -122,6 +122,9 @@ def build_traces(path, tier, seed):
             a = np.abs(a) if dt_ is np.uint8 else np.asarray(a, dtype=float)
             a = np.round(a / (np.max(np.abs(a)) + 1e-300) * top).astype(dt_)
             shape += " (%s counts)" % np.dtype(dt_).name
+            if dt_ is not np.uint8 and (i - nser1) % 8 < 4:
+                a[int(rng.integers(n))] = np.iinfo(dt_).min      # the type's most negative count: |.| is not representable in the type
+                shape += " with the most negative count"
         elif i >= nser0:
             # strong head, then a coda whose squares are about one ulp of the running sum (slowly varying shapes): the sums
             # hardly move any more and exact monotonicity is at stake
